@@ -1727,6 +1727,14 @@ impl Interpreter {
         let mut parser = Parser::new(source, &mut self.string_dict);
         let program = parser.parse_program()?;
 
+        // The entry program of the run in progress was started from the source passed to
+        // prepare()/eval(). A host that also supplies that source under the entry's own path
+        // (handing over every file it knows) must not make its body run a second time
+        let run_in_progress = self.pending_program.is_some() || self.active_vm.is_some();
+        if run_in_progress && self.main_module_path.as_ref() == Some(&resolved_path) {
+            return Ok(());
+        }
+
         // Store the parsed program for later execution
         self.pending_module_sources.insert(resolved_path, program);
 
